@@ -53,7 +53,12 @@ Definition rcheck (strict : bool) (p : list stmt) (c : rcase) : bool :=
 Definition pcheck (c : list stmt * list rcase) : bool := forallb (rcheck true (fst c)) (snd c).
 (* one-directional: implementation accepts => model accepts with the same tree *)
 Definition pcheck1 (c : list stmt * list rcase) : bool := forallb (rcheck false (fst c)) (snd c).
-Definition ncheck (c : list stmt * list rname) : bool := list_beq rname_eqb (region_names (fst c)) (snd c).
+(* names: pre-order region tags as flattened by the harness, the tree itself for a sample, observed names *)
+Definition ncheck (c : option (list stmt) * list nat * list rname) : bool :=
+  match c with (tree, tags, obs) =>
+    list_beq rname_eqb (name_from 0 tags) obs
+    && match tree with Some t => list_beq Nat.eqb (regs t) tags | None => true end
+  end.
 Definition auto_code (r : auto_result) : nat * list stmt :=
   match r with AWrapped q => (0, q) | ASkipped => (1, []) | ARaised => (2, []) end.
 Definition acheck (c : list stmt * (nat * list stmt)) : bool :=
@@ -139,7 +144,9 @@ class Impl:
         from psyclone.psyir import transformations as T
         from psyclone.psyir.transformations import TransformationError
         self.N, self.T = N, T
-        self.reader, self.writer = FortranReader(), FortranWriter()
+        self.reader = FortranReader()
+        # a fresh writer per call: a FortranWriter that raised half-way keeps its indentation depth
+        self.writer = lambda node: FortranWriter()(node)
         self.TransformationError = TransformationError
         self.trans = [getattr(T, n) for n in TRANS_NAMES]
         self.dirs = [getattr(N, n) for n in DIR_NAMES]
@@ -812,7 +819,7 @@ def run(ctx):
 
     # ---- generated cases
     rng = ctx.rng("gen")
-    nprog = ctx.pick(8, 70)
+    nprog = ctx.pick(6, 70)
     max_stage2 = ctx.pick(1, 3)
     stage2_sample = ctx.pick(12, 30)
     max_names = ctx.pick(150, 700)
@@ -824,7 +831,15 @@ def run(ctx):
     n_out_of_subset = 0
     n_writes = 0
     fixed = targeted_programs()
+    import time as _time
+    import os as _os
+    gen_budget = int(_os.environ.get("C28_GEN_BUDGET", ctx.pick(45, 420)))       # seconds for the generation/implementation phase (soft: the fixed shapes always run)
+    gen_t0 = _time.time()
     for pi in range(-len(fixed), nprog):
+        if pi >= 2 and _time.time() - gen_t0 > gen_budget:
+            ctx.notes["generation_cut_short_after_programs"] = pi
+            ctx.log("generation budget of %ds used up after %d random programs" % (gen_budget, pi))
+            break
         g = fortgen.Gen(rng, max_depth=2, allow_exit=True, two_d=(rng.random() < 0.3))
         if pi < 0:
             base = fixed[pi + len(fixed)]
@@ -874,7 +889,7 @@ def run(ctx):
                         n_out_of_subset += 1
                         continue
                     c.pysafe = True
-                    c.full = rng.random() < ctx.pick(0.08, 0.05)
+                    c.full = rng.random() < ctx.pick(0.06, 0.04)
                     key = (text, stage, tidx, path, lo, ln, json.dumps(o, sort_keys=True), repr(prog) if stage == 2 else "")
                     ctx.count(key, c.acc)
                     ctx.hist("verdict", "%s:%s" % (TRANS_NAMES[tidx], "accepted" if c.acc else "refused"))
@@ -1024,8 +1039,10 @@ def run(ctx):
                     rn.append("RUser %s" % u.group(1))
                 else:
                     rn.append("RUser 999999")
-            ncs.append("(%s, [%s])" % (mf.stmts_to_coq(res, nm), "; ".join(rn)))
-        nbad = ctx.coq_eval_failing(HEADER, "list stmt * list rname", "ncheck", ncs, shard=60) if ncs else []
+            tree = "(Some %s)" % mf.stmts_to_coq(res, nm) if len(ncs) % 4 == 0 else "None"
+            ncs.append("(%s, [%s], [%s])" % (tree, "; ".join(str(t) for t in model_names(res)[0]), "; ".join(rn)))
+        nbad = ctx.coq_eval_failing(HEADER, "option (list stmt) * list nat * list rname", "ncheck", ncs,
+                                    shard=150) if ncs else []
         for b in nbad[:3]:
             res, obs, text, tname, tgt, written, nm = names_cases[b]
             disagreements.append(("names", {"program": text, "written_code": written, "observed_names": obs,
@@ -1048,11 +1065,13 @@ def run(ctx):
     # ---- thorough: compiled runs against the checking stub library
     if stubdir is not None:
         ran = 0
+        from concurrent.futures import ThreadPoolExecutor
+        gf_jobs = [job for job in gf_jobs if mf.interp(job[0], job[3][0], job[3][1])[0] == "ok"]
+        with ThreadPoolExecutor(max_workers=max(2, core.NCPU // 2)) as pool:
+            gf_results = list(pool.map(lambda jj: gfortran_run(ctx, stubdir, "c%d" % jj[0], jj[1][1], jj[1][2], jj[1][3][0]),
+                                       enumerate(gf_jobs)))
         for j, (res, written, decls, (vals, bnds), inst, table, text, tname, tgt) in enumerate(gf_jobs):
-            r = mf.interp(res, vals, bnds)
-            if r[0] != "ok":
-                continue
-            st, ev, verdict = gfortran_run(ctx, stubdir, "c%d" % j, written, decls, vals)
+            st, ev, verdict = gf_results[j]
             ctx.hist("gfortran_run", st)
             if st != "ran":
                 prop_failures.append({"what": "instrumented code does not compile/run against the PSyData stub library: " + st,
